@@ -118,6 +118,8 @@ HISTORY = {
     "C15-r10-2": "round 10. tonumpy reading the first stored term: caught by C19 (constants stored behind a zero term); the mechanism repeats C19-r3G8-1",
     "C20-r10-1": "round 10. needs retain_names=False: caught by C15",
     "C20-r10-2": "round 10. numpoly.call writes the positional values into the caller's kwargs dict: caught by C17 (and by C02's repeat rider); C20 does not reuse a kwargs dict",
+    "C05-r10-1": "round 10. first run: missed; 12% of the divisions now run with floating-point faults and warnings promoted to errors (numpy.errstate(all='raise'))",
+    "C05-r10-2": "round 10. first run: missed; exact multiples now also have cofactors scaled by 2**-40 / 2**-60 / 2**-80 (far below machine epsilon, far above the documented absolute cutoff of 1e-30), with the tolerance following that scale",
     "C06-2": "first run: caught by C06, missed by C15; C15's derivative entry now differentiates with respect to several variables",
 }
 REJECTED = [
